@@ -52,7 +52,7 @@ def itemOfJson (j : Json) : Except String Item := do
 
 def dimOfJson (j : Json) : Except String Dim := do
   let items ← (← getList (← getField j "items")).mapM itemOfJson
-  pure { items := items, mrIns := getBoolD j "mr_ins" false }
+  pure { items := items, mrIns := getBoolD j "mr_ins" false, noSubvarIds := getBoolD j "no_subvar_ids" false }
 
 def itemToJson (it : Item) : Json :=
   jObj [("id", jInt it.eid), ("alias", .str it.alias), ("subvar_id", .str it.subvarId),
@@ -60,7 +60,8 @@ def itemToJson (it : Item) : Json :=
         ("subvar_alias", optStrJson it.subvarAlias)]
 
 def dimToJson (d : Dim) : Json :=
-  jObj [("items", .arr (d.items.map itemToJson).toArray), ("mr_ins", .bool d.mrIns)]
+  jObj [("items", .arr (d.items.map itemToJson).toArray), ("mr_ins", .bool d.mrIns),
+        ("no_subvar_ids", .bool d.noSubvarIds)]
 
 def elXfOfJson (j : Json) : Except String ElXf := do
   let hide ← match optField j "hide" with
